@@ -47,6 +47,13 @@ def isCanonicalResult : G → Bool
   | .collection gs => decide (gs.length ≥ 2) && gs.all (fun g => !isEmptyG g && !isGC g) && decide ((gs.map G.typeId).eraseDups.length ≥ 2)
   | _ => false
 
+/-- `(dimension, isEmpty)` of the atomic elements -/
+partial def atomsOf : G → List (Int × Bool)
+  | .multiPoint gs | .multiLineString gs | .multiPolygon gs | .collection gs => gs.flatMap atomsOf
+  | g => [(dimG g, isEmptyG g)]
+
+def shapeOf (g : G) : Shape := ⟨isGC g, dimG g, atomsOf g⟩
+
 def emptyKinds : List (G × Int) :=
   let e : CSeq := ⟨false, false, []⟩
   [(.point e, 0), (.lineString e, 1), (.polygon e [], 2), (.collection [], -1), (.multiPolygon [], 2),
@@ -186,16 +193,17 @@ def check (line : String) : String :=
               | some rg =>
                 if hasCurve rg then bad "curved-result" else
                 let R := flat rg
-                if r.valid != "1" then bad s!"invalid valid={r.valid}" else
-                if !lightValid R then bad "invalid light-check" else
+                -- geos_c.h: GEOSClipByRect is "not guaranteed to return valid results"
+                if base != "clip" && r.valid != "1" then bad s!"invalid valid={r.valid}" else
+                if base != "clip" && !lightValid R then bad "invalid light-check" else
                 let binary := base == "int" || base == "uni" || base == "dif" || base == "sym"
-                let dX := dimG X.g; let dY := dimG Y.g
+                let (dX, dY) := overlayDims (shapeOf X.g) (shapeOf Y.g)
                 let eX := isEmptyG X.g; let eY := isEmptyG Y.g
                 let rd := resultDimension op dX dY
                 let emptyRule := isEmptyResult op eX eY (envDisjoint (envOf X.f) (envOf Y.f))
                 let rEmpty := isEmptyG rg
                 if binary && emptyRule && !rEmpty then bad "emptyrule result-not-empty" else
-                if binary && rEmpty && emptyResultType rd != some rg.typeId then bad s!"emptytype type={rg.typeId} dim={rd}" else
+                if binary && rEmpty && (emptyResultType rd).isSome && emptyResultType rd != some rg.typeId then bad s!"emptytype type={rg.typeId} dim={rd}" else
                 if binary && !rEmpty && dimG rg > rd then bad s!"dim result={dimG rg} rule={rd}" else
                 if binary && !rEmpty && !isCanonicalResult rg then bad s!"type not-most-specific type={rg.typeId}" else
                 let T : Tol := ⟨mag, !needNew⟩
@@ -206,11 +214,10 @@ def check (line : String) : String :=
                 else ⟨none, some (flatArea2 R), exactPass⟩
           | _ => ⟨some s!"bad {r.opv} format", none, false⟩
         let outs := recs.map fun r => (r.opv, evalRec r)
-        match outs.findSome? (fun (_, o) => o.msg) with
-        | some m => m
-        | none =>
-          -- inclusion–exclusion and its relatives on exact areas (inputs that are not GeometryCollections)
-          if gcFlag then "ok" else
+        let recMsgs := outs.filterMap (fun (_, o) => o.msg)
+        -- inclusion–exclusion and its relatives on exact areas (inputs that are not GeometryCollections)
+        let areaMsgs : List String :=
+          if gcFlag then [] else
           let get (k : String) : Option (Int × Bool) := (outs.lookup k).bind fun o => o.area2.map fun a => (a, o.exactPass)
           let aA := flatArea2 A.f; let aB := flatArea2 B.f
           let slack : Int := 8 * mag * (ringLenL1 A.f + ringLenL1 B.f)      -- ×1e-9, doubled-area units
@@ -223,14 +230,14 @@ def check (line : String) : String :=
           let add (a b : Option (Int × Bool)) : Option (Int × Bool) := match a, b with | some (x, e1), some (y, e2) => some (x + y, e1 && e2) | _, _ => none
           let sub (a b : Option (Int × Bool)) : Option (Int × Bool) := match a, b with | some (x, e1), some (y, e2) => some (x - y, e1 && e2) | _, _ => none
           let cA : Option (Int × Bool) := some (aA, true); let cB : Option (Int × Bool) := some (aB, true)
-          let checks := [chk "incl-excl:ab" (add cA cB) (add (get "uni:ab") (get "int:ab")),
-                         chk "dif:ab" (get "dif:ab") (sub cA (get "int:ab")),
-                         chk "sym:ab" (get "sym:ab") (sub (get "uni:ab") (get "int:ab")),
-                         chk "dif:ba" (get "dif:ba") (sub cB (get "int:ba")),
-                         chk "incl-excl:ba" (add cA cB) (add (get "uni:ba") (get "int:ba"))]
-          match checks.findSome? id with
-          | some m => m
-          | none => "ok"
+          [chk "incl-excl:ab" (add cA cB) (add (get "uni:ab") (get "int:ab")),
+           chk "dif:ab" (get "dif:ab") (sub cA (get "int:ab")),
+           chk "sym:ab" (get "sym:ab") (sub (get "uni:ab") (get "int:ab")),
+           chk "dif:ba" (get "dif:ba") (sub cB (get "int:ba")),
+           chk "incl-excl:ba" (add cA cB) (add (get "uni:ba") (get "int:ba"))].filterMap id
+        match recMsgs ++ areaMsgs with
+        | [] => "ok"
+        | l => Driver.joinWith " ;; " l
     | _, _, _ => "parse-error"
   | _ => "bad-line"
 
